@@ -20,7 +20,7 @@ import (
 	"os"
 	"os/exec"
 	"reflect"
-	"runtime/metrics"
+	"runtime"
 	"strconv"
 	"strings"
 	"syscall"
@@ -198,11 +198,12 @@ func (h *H) write(kind string, t *Ty, v *Val, monitorPanic bool) ([]byte, bool) 
 	return enc, true
 }
 
-var allocSample = []metrics.Sample{{Name: "/gc/heap/allocs:bytes"}}
-
+// bytes allocated so far (runtime.ReadMemStats flushes the per-P caches, so deltas are exact;
+// the runtime/metrics counter is only updated in lumps)
 func allocated() uint64 {
-	metrics.Read(allocSample)
-	return allocSample[0].Value.Uint64()
+	var ms runtime.MemStats
+	runtime.ReadMemStats(&ms)
+	return ms.TotalAlloc
 }
 
 type readResult struct {
@@ -250,8 +251,9 @@ func same(a, b *Val) bool { return lib.Show(a.Term()) == lib.Show(b.Term()) }
 func (h *H) roundTrip(kind string, t *Ty, v *Val) {
 	enc, ok := h.write(kind, t, v, true)
 	in0 := lib.L(lib.N(0), t.Term(), v.Term())
+	sup := supported(t) && guardOK(t, v)
 	if !ok {
-		if supported(t) {
+		if sup {
 			h.s.Monitor("roundtrip", in0, "Write failed on a value of a supported type")
 		}
 		return
@@ -262,7 +264,7 @@ func (h *H) roundTrip(kind string, t *Ty, v *Val) {
 	res := read(t, data, h.g.val(t, true))
 	out := readOut(t, &res)
 	h.s.Case(kind+"-read", t.K != KBasic, in, out)
-	if !supported(t) {
+	if !sup {
 		return
 	}
 	switch {
@@ -655,7 +657,11 @@ func (h *H) lists(n int) {
 			if cut <= len(enc) {
 				data = enc[:cut]
 			}
-			h.readInto("readinto", tys, olds, data, vals, cut > len(enc), len(enc))
+			guard := true
+			for j := range tys {
+				guard = guard && guardOK(tys[j], vals[j])
+			}
+			h.readInto("readinto", tys, olds, data, vals, guard && cut > len(enc), len(enc))
 		}
 	}
 }
@@ -904,7 +910,7 @@ func (c *hostile) malformedBlock(seed uint64, tier int) {
 	var t *Ty
 	for {
 		t = g.ty(3, false)
-		if !hasWire0Loop(t) && t.K != KBasic {
+		if t.K != KBasic {
 			break
 		}
 	}
@@ -949,15 +955,19 @@ func (c *hostile) malformedBlock(seed uint64, tier int) {
 			d[0], d[1], d[2], d[3] = 0, 0, 0, byte(r.Intn(6))
 		}
 		c.decode("mal-random", t, d, old, true)
-		var u *Ty
-		for {
-			u = g.ty(3, true)
-			if !hasWire0Loop(u) {
-				break
-			}
-		}
+		u := g.ty(3, true)
 		c.decode("mal-anytype", u, d, g.val(u, true), true)
 	}
+}
+
+// nestedBomb: outer length k, inner slice i announces as many elements as bytes remain after its own prefix
+func nestedBomb(k int) []byte {
+	b := []byte{byte(k >> 24), byte(k >> 16), byte(k >> 8), byte(k)}
+	for i := 1; i <= k; i++ {
+		l := 4 * (k - i)
+		b = append(b, byte(l>>24), byte(l>>16), byte(l>>8), byte(l))
+	}
+	return b
 }
 
 // dedicated hostile inputs: a length prefix far beyond the input
@@ -976,10 +986,14 @@ func (c *hostile) dedicated() {
 		{TSl(false, TB(BStr)), []byte{0x04, 0, 0, 0}, true},                 // 2^26 strings = 1 GiB
 		{TSl(false, TSl(false, TB(BU64))), []byte{0, 0, 0, 1, 0x10, 0, 0, 0}, true},
 		{TSt(Ex(TB(BU8)), Ex(TSl(false, TB(BI32)))), []byte{7, 0xff, 0xff, 0xff, 0xff}, true},
-		{TSl(false, e), []byte{0, 0, 0, 3}, true},                           // zero-size elements, small count
-		{TSl(false, e), []byte{0, 0x10, 0, 0}, false},                       // 2^20 iterations for 4 bytes
-		{TSl(false, e), ff, false},                                          // 2^32-1 iterations for 4 bytes
-		{TSt(Ex(TSl(false, TSt(Un(TB(BU64))))), Ex(TB(BU8))), []byte{0x40, 0, 0, 0}, false},
+		{TSl(false, e), []byte{0, 0, 0, 3, 9, 9, 9}, true},                  // zero-size elements: 3 <= 3 remaining bytes
+		{TSl(false, e), []byte{0, 0, 0, 3, 9, 9}, true},                     // 3 > 2 remaining bytes: rejected
+		{TSl(false, e), ff, true},
+		{TSt(Ex(TSl(false, TSt(Un(TB(BU64))))), Ex(TB(BU8))), []byte{0x40, 0, 0, 0}, true},
+		// zero-size elements nested in a slice: every inner slice may announce as many elements as bytes remain
+		{TSl(false, TSl(false, e)), nestedBomb(100), true},
+		{TSl(false, TSl(false, e)), nestedBomb(8000), false},                // 32 KB of input, 1.3e8 iterations
+		{TSl(false, TSl(false, TSt(Un(TB(BU64))))), nestedBomb(20000), false}, // 80 KB of input, 8 bytes per iteration
 	}
 	for _, x := range cases {
 		c.decode("hostile", x.t, x.data, zeroVal(x.t), x.emit)
@@ -995,12 +1009,7 @@ func (c *hostile) readIntoBlock(seed uint64) {
 	olds := make([]*Val, k)
 	args := make([]any, k)
 	for j := range tys {
-		for {
-			tys[j] = g.ty(2, false)
-			if !hasWire0Loop(tys[j]) {
-				break
-			}
-		}
+		tys[j] = g.ty(2, false)
 		vals[j] = g.val(tys[j], true)
 		olds[j] = g.val(tys[j], true)
 		args[j] = arg(tys[j], newVar(tys[j], vals[j]))
